@@ -105,6 +105,14 @@ var plans = map[string]Plan{
 		Rule: "one evaluation = one seeded operation history (10-200 Put/Probe/GetEntry/AgeEntries/Clear/Resize operations, keys built to collide in the index bits at every capacity, values over the whole storable range incl. mate scores, MoveNone, depths with ties) executed by two actor goroutines against the real table (real ageing workers) and checked operation by operation against a reference store; distinct = distinct hashes of the abstract model state sequence; non-trivial = at least one index collision between different keys occurred",
 		Real: []string{"transpositiontable.TtTable (Put, Probe, GetEntry, AgeEntries with its 32 worker goroutines, Clear, Resize, Len, Hashfull, String)"}, Stub: []string{"search and controller (harness actor goroutines, hand-over like the engine's lifecycle lock)"},
 		Assume: []string{"key 0 (the table's own empty-slot marker) and size 0 are not generated", "equal-depth replacement after ageing and probing: either outcome accepted (the statement does not say how probes interact with ageing)"}},
+	"C19": {Level: "exploration", Runs: [2]int{800, 20000}, RaceRuns: [2]int{60, 1500}, Batch: 25, DesignRef: "5/C19",
+		Rule: "one evaluation = one seeded game collection (shared prefixes, transpositions, duplicate games, illegal moves mid-line, promotions) written as Simple, SAN and PGN (tags, comments, NAGs, nested variations, results, wrapped lines) and built 2-4 times per format under seeded schedules that decide the order of every acquisition of the book lock; distinct = distinct lock-grant orders (hash); non-trivial = more than one build",
+		Real: []string{"openingbook.Book (Initialize, file reading, format processing, per-line worker goroutines, addToBook under the book lock)", "movegen (move parsing from UCI/SAN)", "position"}, Stub: []string{"goroutine scheduling of the build workers (every lock acquisition is a seeded fake-time slot)", "book source files (generated by the harness from rules-model games)"},
+		Assume: []string{"position identity uses the engine's own position key (DoMove/Zobrist are the trusted base here; C02/C04 are not claimed)", "which parent links to a transposed position is schedule dependent and is not compared"}},
+	"C20": {Level: "fault_enumeration", Runs: [2]int{400, 10000}, Batch: 20, DesignRef: "5/C20",
+		Rule: "one evaluation = one seeded book: built from source, saved to its cache, then re-initialised from every damaged state of the cache file (every byte prefix of the written file for small books, bit flips, garbage, empty, missing, directory in place, appended bytes, zeroed ranges), twice per state in the same process; distinct = distinct (cache length, damage kind, offset) sets; non-trivial = at least one damaged state was installed",
+		Real: []string{"openingbook.Book Initialize / loadFromCache / saveToCache with encoding/gob", "real files in a per-run temporary directory"}, Stub: []string{"crash while writing the cache (simulated by installing every prefix of the complete file)"},
+		Assume: []string{"a damaged cache that still decodes (e.g. a flipped counter bit) is outside the statement: only termination/no panic is required there", "no file-system seam exists in the engine, so I/O errors during read/write cannot be injected; the states a crash leaves behind are enumerated instead", "deadlock = book lock held continuously for 3 s of wall time while Initialize has not returned"}},
 	"C07": {Level: "exploration", Runs: [2]int{1200, 30000}, Batch: 50, DesignRef: "5/C07",
 		Rule: "one evaluation = one simulated session with the terminal-node monitor on; distinct = distinct (interleaving signature); non-trivial = at least one mate/stalemate classification was checked against the rules model",
 		Real: realEngine, Stub: stubEnv,
@@ -590,6 +598,50 @@ func (m *minimiser) minimise(sc *sim.Scenario, budget time.Duration) *sim.Scenar
 			}
 		}
 	}
+	// 1b. book scenarios: ddmin over the games (adversity entries follow their game)
+	if cur.Book != nil && len(cur.Book.Games) > 1 {
+		without := func(sc *sim.Scenario, s, e int) *sim.Scenario {
+			c := sc.Clone()
+			c.Book.Games = append(append([][]string{}, sc.Book.Games[:s]...), sc.Book.Games[e:]...)
+			c.Book.Bad = nil
+			for _, b := range sc.Book.Bad {
+				switch {
+				case b.Game < s:
+					c.Book.Bad = append(c.Book.Bad, b)
+				case b.Game >= e:
+					b.Game -= e - s
+					c.Book.Bad = append(c.Book.Bad, b)
+				}
+			}
+			return c
+		}
+		n := 2
+		for len(cur.Book.Games) >= 2 && time.Now().Before(deadline) {
+			chunk := (len(cur.Book.Games) + n - 1) / n
+			var cands []*sim.Scenario
+			for s := 0; s < len(cur.Book.Games); s += chunk {
+				e := s + chunk
+				if e > len(cur.Book.Games) {
+					e = len(cur.Book.Games)
+				}
+				cands = append(cands, without(cur, s, e))
+			}
+			if i := m.testMany(cands); i >= 0 {
+				cur = cands[i]
+				if n > 2 {
+					n--
+				}
+				continue
+			}
+			if chunk == 1 {
+				break
+			}
+			n *= 2
+			if n > len(cur.Book.Games) {
+				n = len(cur.Book.Games)
+			}
+		}
+	}
 	// 2. simplifications, each kept only if the same class persists
 	try := func(f func(c *sim.Scenario) bool) {
 		if !time.Now().Before(deadline) {
@@ -601,6 +653,49 @@ func (m *minimiser) minimise(sc *sim.Scenario, budget time.Duration) *sim.Scenar
 		}
 	}
 	try(func(c *sim.Scenario) bool { ch := len(c.Cost.Stalls) > 0; c.Cost.Stalls = nil; return ch })
+	if cur.Book != nil {
+		try(func(c *sim.Scenario) bool { ch := len(c.Book.Bad) > 0; c.Book.Bad = nil; return ch })
+		try(func(c *sim.Scenario) bool {
+			ch := len(c.Book.SchedSeeds) > 1
+			if ch {
+				c.Book.SchedSeeds = c.Book.SchedSeeds[:1]
+			}
+			return ch
+		})
+		try(func(c *sim.Scenario) bool { ch := c.Book.AllPrefixes; c.Book.AllPrefixes = false; return ch })
+		for len(cur.Book.Damage) > 1 && time.Now().Before(deadline) {
+			// keep the last or the first half of the damage list
+			h := len(cur.Book.Damage) / 2
+			a, b := cur.Clone(), cur.Clone()
+			a.Book.Damage = a.Book.Damage[:h]
+			b.Book.Damage = b.Book.Damage[h:]
+			if m.test(a) {
+				cur = a
+			} else if m.test(b) {
+				cur = b
+			} else {
+				break
+			}
+		}
+		for gi := range cur.Book.Games {
+			gi := gi
+			for len(cur.Book.Games[gi]) > 1 && time.Now().Before(deadline) {
+				c := cur.Clone()
+				c.Book.Games[gi] = c.Book.Games[gi][:len(c.Book.Games[gi])/2]
+				keep := true
+				for _, b := range c.Book.Bad {
+					if b.Game == gi && b.At > len(c.Book.Games[gi]) {
+						keep = false
+					}
+				}
+				if keep && m.test(c) {
+					cur = c
+				} else {
+					break
+				}
+			}
+		}
+	}
 	try(func(c *sim.Scenario) bool { ch := c.Config != nil; c.Config = nil; return ch })
 	try(func(c *sim.Scenario) bool { ch := c.Cost.JitterNs != 0; c.Cost.JitterNs = 0; return ch })
 	try(func(c *sim.Scenario) bool { ch := c.Cost.Every != 1; c.Cost.Every = 1; return ch })
